@@ -57,8 +57,8 @@ CHECKS["C08"] = dict(
     note=SNAPNOTE)
 CHECKS["C18"] = dict(
     category="model_checking", design_ref="DESIGN.md §7 C18",
-    technique="trace validation against SnapTrace.tla: TLC routes the boundary itself, evaluates the at-most-twice antecedent, and checks edge-is-run, holes-in-shell and signed-area equality on the recorded result; intermediate results of addPointsAndSnap validated against the contract of the Snap machine (SnapSteps.tla S3-S6)",
-    text="Collapse-prone valid polygons (slivers, combs, necks, frames, serpentines); vacuity is guarded: the evidence counts (record, level) pairs where the antecedent holds and some centre is visited twice, and the check is broken below a floor.",
+    technique="trace validation against SnapTrace.tla: TLC routes the boundary itself, evaluates the at-most-twice antecedent, and checks edge-is-run, holes-in-shell and signed-area equality on the recorded result; intermediate results of addPointsAndSnap validated against the contract of the Snap machine (SnapSteps.tla S3-S6); Assemble.tla: the code's assembly stage (dedupeInnersOuters, matchInnersToPolygons) transcribed, TLC-checked against the reference on enumerated loop configurations, every configuration replayed through the real functions (AssembleTrace.tla)",
+    text="Collapse-prone valid polygons (slivers, combs, necks, frames, serpentines, shells with long sloped edges and a courtyard, holes touching one part of a split shell with all vertices); vacuity is guarded: the evidence counts (record, level) pairs where the antecedent holds and some centre is visited twice, and the check is broken below a floor.",
     note=SNAPNOTE)
 
 PIPENOTE = "Trusted: TLC; fake source/targets and the tagged polygon function of the harness; events logged under one mutex by the stepping process, hand-overs inferred by TLC with unbounded channel capacity (so buffered refactorings are not rejected). Bounded design model: <=3 features x <=3 targets x all outcome maps, capacity 0 and 2, 1-2 tables."
@@ -76,7 +76,7 @@ CHECKS["C11"] = dict(
 CHECKS["C12"] = dict(
     category="model_checking", design_ref="DESIGN.md §7 C12",
     technique="TLA+ model of the paged writer (Paging.tla: Recv / FlushFull / FlushFinal) checked exhaustively by TLC; observations of a real TargetGeopackage (row counts after every send via a second SQLite connection, final rows/rtree/extent/schema) validated against PagingTrace.tla",
-    text="Design: all page sizes 1..4 x counts 0..13 x empty-geometry subsets (conservation, pages full, completeness, termination). Code: for every page size 1..5 (1..12 thorough) and every count 0..3P+1 a random source table is read by the real SourceGeopackage and written by the real TargetGeopackage; the observation sequence must be a behaviour of the specification, whose final guard demands one row per feature in order with intact values, the exact spatial-index id set, the exact integer extent and matching schema metadata.",
+    text="Design: all page sizes 1..4 x counts 0..13 x empty-geometry subsets (conservation, pages full, completeness, termination). Code: for every page size 1..5 (1..12 thorough) and every count 0..3P+1 a random source table (polygon / multipolygon / point / linestring / multipoint / multilinestring, empty geometries, NULL attribute values, a spatial reference system whose id differs from its organisation code) is read by the real SourceGeopackage and written by the real TargetGeopackage; the observation sequence must be a behaviour of the specification, whose final guard demands one row per feature in order with intact values, the exact spatial-index id set, the exact integer extent and matching schema metadata.",
     note="Trusted: TLC; the verif-tagged SQLite stub for libspatialite; DeepEqual comparison of values/geometries in the harness; SQLite itself.")
 
 CHECKS["C13"] = dict(
